@@ -44,7 +44,11 @@ inductive Body where
   | tryRead (m : Name) (k c : Int)        -- `if self.has_value(m): return self.m * k + c`   (else `None`)
   deriving DecidableEq, Repr
 
-/-- what can sit in `__dict__` under a hook name -/
+/-- what can sit in `__dict__` under a hook name.  A callable is known to the model only by the number of parameters
+`inspect.signature` reports for it (`Hook.__get__`: `len(inspect.signature(v).parameters) == 0` → `v()`, else
+`v(instance)`); the python KIND of callable — lambda, def, bound method, classmethod, partial, callable object,
+builtin, `functools.wraps` wrapper — does not change the behaviour and is therefore no part of the model (the harness
+draws every kind and maps it to `call0 / call1 / call2`; trusted base). -/
 inductive PyVal where
   | plain (v : Val)                       -- a plain value (incl. falsy `0`, `False`)
   | call0 (id : Id) (r : Option Val)      -- `lambda: r`
